@@ -130,7 +130,8 @@ fn make_case(progs: &[Vec<L>], mailbox: Mailbox, work: Work, interval_with: bool
         role.started_actions.push(Action::IntervalWith { timer: 1, period: 1 });
     }
     let desc = format!(
-        "backpressure mailbox={} work={}y{}s iw={} stopper={} progs={}",
+        "backpressure{} mailbox={} work={}y{}s iw={} stopper={} progs={}",
+        crate::progscene::variant_tag(),
         mailbox.name(),
         work.yields,
         work.sleep,
@@ -142,11 +143,11 @@ fn make_case(progs: &[Vec<L>], mailbox: Mailbox, work: Work, interval_with: bool
         desc,
         exec: ExecCfg { horizon: 4, ..ExecCfg::default() },
         bound,
-        scene: Box::new(ProgScene { attach: crate::progscene::Attach::None, spawn: SpawnCfg::plain(mailbox), roles: vec![role], clients, extra: X { interval_with }, oracle }),
+        scene: Box::new(ProgScene { attach: crate::progscene::attach_for(mailbox), spawn: SpawnCfg::plain(mailbox), roles: vec![role], clients, extra: X { interval_with }, oracle }),
     }
 }
 
-fn cases(tier: Tier) -> Vec<Case> {
+fn plain_cases(tier: Tier) -> Vec<Case> {
     let mut v = vec![];
     let senders = [L::SendAddr, L::SendSnd, L::SendWSnd];
     let mixed = [L::SendAddr, L::SendSnd, L::SendWSnd, L::CallAddr, L::Ping, L::ForceWSnd];
@@ -217,6 +218,21 @@ fn cases(tier: Tier) -> Vec<Case> {
             }
         }
     }
+    v
+}
+
+/// The family on the plain event loop, plus (every third case in the quick tier, all of them in
+/// the thorough tier) the same programs on the stream loop: the actor is attached to a stream
+/// that stays open and never yields, so `create_loop_on_stream` serves the mailbox.
+fn cases(tier: Tier) -> Vec<Case> {
+    let mut v = plain_cases(tier);
+    let s = crate::progscene::with_stream_variant(|| plain_cases(tier));
+    v.extend(s.into_iter().enumerate().filter(|(i, c)| (tier == Tier::Thorough || i % 3 == 0)).map(|(_, mut c)| {
+        // the attached stream is never ready, so the loop's select! tie-break cannot change anything:
+        // it is not explored as a choice here (C13 explores it, with streams that do yield)
+        c.exec.select_choice = false;
+        c
+    }));
     v
 }
 
